@@ -167,14 +167,14 @@ def run(tier):
     # the same geometries on random references (random length / cut position / read length / neighbouring motifs)
     import random
     rng = random.Random(c.seed)
-    sub = scns if not q else rng.sample(scns, min(len(scns), 4000))
+    sub = scns if not q else rng.sample(scns, min(len(scns), 3000))
     sp2 = os.path.join(vlib.scratch(), 'scenarios_random.json')
     with open(sp2, 'w') as f:
         json.dump(sub, f)
     trace2 = os.path.join(vlib.scratch(), 'cutsite_random.ndjson')
     vlib.run_driver('drive_cutsite.py', [trace2, tier, c.seed, sp2, 1 if q else 2, 1, 1])
     ev2, good2 = _validate_chunks(c, trace2)
-    comp = [e for e in good2 if 'a2' in e and e['eq_a'] == 'true' and e['eq_b'] == 'true'
+    comp = [e for e in good2 if 'a2' in e and 'prepass' not in e and e['eq_a'] == 'true' and e['eq_b'] == 'true'
             and not e['a']['scn']['opts']['no_cigar'] and e['a']['scn']['opts']['check_motif'] and e['a']['out']['has_ds']][:1]
     if not comp:
         raise vlib.MachineryError('no accepted companion observation for the dedup self-test')
